@@ -148,6 +148,13 @@ inductive FieldClass where
   | IndexedStringField | FixedStringField | NumericField | CategoricalField | TimestampField
   deriving Repr, DecidableEq, Inhabited
 
+def FieldClass.name : FieldClass → String
+  | .IndexedStringField => "IndexedStringField"
+  | .FixedStringField => "FixedStringField"
+  | .NumericField => "NumericField"
+  | .CategoricalField => "CategoricalField"
+  | .TimestampField => "TimestampField"
+
 /-- the class each `DataFrame.create_*` wraps the new group in -/
 def Kind.cls : Kind → FieldClass
   | .indexedString => .IndexedStringField
